@@ -139,8 +139,14 @@ SigBytes(s) == FromHex(OnlyHex(s))
 (*            the message for the version the file names afterwards)       *)
 (*  roundtrip save; load; save: ok, after = [hash, iter, sigs], f1, f2     *)
 (*  apdu      one device exchange: apdu, sw, resp                          *)
+(*  begin     a new authorize operation starts (exchange counters reset)   *)
+(*  content   the object's content as seen through via ("dict" | "save" |   *)
+(*            "sigs" | "ver" | "disk"): hash, iter, sigs                    *)
+(*  add       add_signature(given): ok, after = content                    *)
 (*  outcome   the authorize command ended: authorized ("t"|"f"), exc =     *)
-(*            class of the exception that escaped ("none" if none)         *)
+(*            class of the exception that escaped ("none" if none), fresh = *)
+(*            outcome of the same operation on a freshly loaded copy of    *)
+(*            the same content against a device in the same state ("na")   *)
 (***************************************************************************)
 InitObs == [st |-> "none",          \* none | built | refused
             h |-> <<>>, n |-> 0, sigs |-> <<>>,   \* the authorization held (bytes, int, texts)
@@ -196,6 +202,10 @@ Observe(o, e, L) ==
         THEN [o EXCEPT !.st = "built", !.h = FromHex(OnlyHex(e.file.hash)), !.n = e.file.iter,
                        !.sigs = e.file.sigs]
         ELSE o
+    ELSE IF e.k = "begin" THEN
+        [o EXCEPT !.sent = 0, !.sigver = "na", !.err = FALSE, !.done = FALSE]
+    ELSE IF e.k = "add" THEN
+        IF e.ok = "t" THEN [o EXCEPT !.sigs = e.after.sigs] ELSE o
     ELSE IF e.k = "apdu" /\ IsAuthApdu(e) THEN
         [o EXCEPT !.sent = @ + 1,
                   !.sigver = IF o.sent = 0 THEN (IF e.sw = SW_OK THEN "ok" ELSE "err") ELSE @,
@@ -273,9 +283,26 @@ Judge(o, e, L) ==
         IF (e.authorized = "t") # o.done THEN "AuthorizedIff"
         \* once the conversation has begun the command ends authorised or with a documented error
         ELSE IF e.authorized = "f" /\ o.sent > 0 /\ e.exc \notin DocumentedErrors THEN "DocumentedFailure"
+        \* the same operation on a freshly loaded copy of the same content ends the same way
+        ELSE IF e.fresh # "na" /\ e.fresh # e.authorized THEN "SameAsFreshLoad"
         ELSE IF o.st = "built" /\ o.sent = 0 THEN "SigVerFirst"          \* nothing was sent at all
         ELSE IF o.st = "built" /\ ~o.done /\ o.sigver = "ok" /\ ~o.err
                 /\ o.sent # 1 + Len(o.sigs) THEN "AllSentBeforeFailing"
+        ELSE ""
+    ELSE IF e.k = "begin" THEN ""
+    ELSE IF e.k = "content" THEN
+        \* to_dict / saved file / .signatures / .signer_version of the object in use: what was built
+        \* or loaded, plus what add_signature appended -- whatever was done with the object since
+        IF o.st # "built" THEN "ContentWithoutAuthorization"
+        ELSE IF e.hash # ToHex(o.h) \/ e.iter # o.n \/ e.sigs # o.sigs THEN "ObjectUnchanged"
+        ELSE ""
+    ELSE IF e.k = "add" THEN
+        IF o.st # "built" THEN "ContentWithoutAuthorization"
+        ELSE IF SigStatus(e.given) = "bad" THEN
+             (IF e.ok = "f" /\ e.after.sigs = o.sigs THEN "" ELSE "RefusesMalformed")
+        ELSE IF e.ok = "f" THEN (IF SigStatus(e.given) = "free" /\ e.after.sigs = o.sigs THEN "" ELSE "SignatureAdded")
+        ELSE IF e.after.hash # ToHex(o.h) \/ e.after.iter # o.n \/ e.after.sigs # Append(o.sigs, e.given)
+             THEN "SignatureAdded"
         ELSE ""
     ELSE "UnknownEvent"
 =============================================================================
